@@ -10,6 +10,7 @@ from collections import defaultdict
 from ..graph.graph import Node
 from ..graph.maskable_graph import MaskableGraph
 from ..arch.registers import Register
+from ..utils.collections import OrderedSet
 
 
 class InterferenceGraphNode(Node):
@@ -18,7 +19,7 @@ class InterferenceGraphNode(Node):
     def __init__(self, graph, vreg):
         super().__init__(graph)
         self.temps = {vreg}
-        self.moves = set()
+        self.moves = OrderedSet()
         self.reg = vreg if vreg.is_colored else None
         self.reg_class = type(vreg)
 
@@ -49,19 +50,35 @@ class InterferenceGraph(MaskableGraph):
 
     def calculate_interference(self, flowgraph):
         """Construct interference graph"""
+        # The liveness sets are unordered. Number the registers in order of
+        # first occurence, and visit the sets in that order. Otherwise the
+        # node and edge order, and by that the allocated registers, would
+        # depend upon the hash (the memory address) of the registers.
+        order = {}
+        for n in flowgraph:
+            for ins in n.instructions:
+                for tmp in ins.used_registers:
+                    order.setdefault(tmp, len(order))
+                for tmp in ins.defined_registers:
+                    order.setdefault(tmp, len(order))
+                for tmp in ins.clobbers:
+                    order.setdefault(tmp, len(order))
+
         for n in flowgraph:
             for ins in n.instructions:
                 # ins.live_out |= ins.
-                for tmp in ins.live_in:
+                for tmp in sorted(ins.live_in, key=order.__getitem__):
                     self.get_node(tmp)
 
                 # Live out and zero length defined variables:
-                live_and_def = ins.live_out | ins.kill
+                live_and_def = sorted(
+                    ins.live_out | ins.kill, key=order.__getitem__
+                )
 
                 # Add interfering edges:
                 for tmp in live_and_def:
                     n1 = self.get_node(tmp)
-                    for tmp2 in live_and_def - {tmp}:
+                    for tmp2 in live_and_def:
                         n2 = self.get_node(tmp2)
                         self.add_edge(n1, n2)
 
@@ -106,7 +123,7 @@ class InterferenceGraph(MaskableGraph):
         """Combine n and m into n and return n"""
         # Copy associated moves and temporaries into n:
         n.temps |= m.temps
-        n.moves.update(m.moves)
+        n.moves |= m.moves
 
         # Update local temp map:
         for tmp in m.temps:
